@@ -174,6 +174,9 @@ pub fn run(cfg: &Cfg) -> i32 {
     let mut total_pos = 0u64;
     let mut covered_pos = 0u64;
     for i in 0..nprog {
+        if !cfg.mine(i) {
+            continue;
+        }
         let c = match generated(cfg.seed, "C08", i, &gc) {
             GenOutcome::Ok(c) => c,
             _ => {
@@ -240,7 +243,7 @@ pub fn run(cfg: &Cfg) -> i32 {
             match r {
                 Err(e) => {
                     let msg = e.downcast_ref::<String>().cloned().or_else(|| e.downcast_ref::<&str>().map(|s| s.to_string())).unwrap_or_default();
-                    rep.violation("slicing/panic", witness("panic", json!(msg)));
+                    rep.panic_caught("slicing", witness("panic", json!(msg)));
                 }
                 Ok(Err(e)) => rep.harness_error(&e),
                 Ok(Ok(o)) => {
